@@ -508,6 +508,44 @@ def r10_secret_measure(ctx, configs, rule_id='C10.R10'):
                 r.undecided(q, site, verdict[1], file=f['file'], line=verdict[2])
 
 
+def r15_pkcs1_bounds(ctx, prog, rule_id='C10.R15'):
+    """PKCS#1 v1.5 takes messages of up to k - 11 octets (k = modulus length).  "The token produces what the standard mechanism defines for every valid input": the OpenSSL back end's own
+    length guards in front of RSA_private_encrypt / RSA_public_encrypt are evaluated at the boundary - a message of exactly k - 11 octets must still be able to succeed."""
+    r = ctx.rule(rule_id, 'the length guard of CKM_RSA_PKCS accepts a message of exactly k - 11 octets (sign and encrypt)', floor=2, engine='E1 finite-domain evaluation at the boundary')
+    def enum_val(q):
+        for e in prog.enums.values():
+            for c in e.get('enumerators', []):
+                if (e['qname'].rsplit('::', 1)[0] + '::' + c['name']) == q or c.get('qname') == q:
+                    return c.get('v', c.get('value'))
+        return None
+    v_pkcs = enum_val('AsymMech::RSA_PKCS')
+    k = 128
+    for q, data, mechp in (('OSSLRSA::sign', 1, 3), ('OSSLRSA::encrypt', 1, 3)):
+        fs = prog.fns(q)
+        if not fs:
+            continue
+        f = fs[0]
+        ctx.analysed(f)
+        if v_pkcs is None:
+            r.undecided(q, 'k - 11 octets', 'the value of AsymMech::RSA_PKCS was not found', file=f['file'], line=f['line'])
+            continue
+        dn, mn = param_name(f, data), param_name(f, mechp)
+        cenv = {mn: v_pkcs, re.compile(r'size\(getN\(.*\)\)'): k, re.compile(r'RSA_size(@\d+)?\(.*\)'): k, 'size(%s)' % dn: k - 11, re.compile(r'isOfType\(.*\)'): 1, 'rsa': 1, 'bn_n': 1}
+        o = Outcomes(f, prog, cenv=cenv)
+        o.CAP = 256
+        o.go()
+        r.paths += len(o.outcomes)
+        site = 'message of k - 11 octets'
+        good = [oc for oc in o.outcomes if str(oc.get('ret')) in ('true', '1')]
+        if not o.outcomes:
+            r.undecided(q, site, 'no path', file=f['file'], line=f['line'])
+        elif not good:
+            r.violation(q, site, 'with CKM_RSA_PKCS and a message of exactly k - 11 octets (k = %d) every path fails: the longest message PKCS#1 v1.5 allows is refused by the back end\'s own length guard' % k,
+                        file=f['file'], line=o.outcomes[0]['line'], path=o.outcomes[0]['path'])
+        else:
+            r.ok(q, site, '%d of %d paths can succeed' % (len(good), len(o.outcomes)), file=f['file'], line=f['line'])
+
+
 RAW_PUBLIC_SIZES = {32: 'X25519 (RFC 7748)', 56: 'X448 (RFC 7748)', 65: 'P-256 uncompressed point (SEC 1)', 97: 'P-384 uncompressed point', 133: 'P-521 uncompressed point'}
 
 # uncompressed points (1 + 2 * field octets) of the other named curves of the OpenSSL back end
@@ -574,6 +612,7 @@ def run(ctx):
     from rules import c20
     c20.r10_round_up(ctx, configs, rule_id='C10.R9')
     r10_secret_measure(ctx, configs)
+    r15_pkcs1_bounds(ctx, ossl)
     from rules import c12
     c12.r1cd_typestate(ctx, ossl, rule_ids=('C10.R11a', 'C10.R11b'))
     c20.r13_arm_digests(ctx, configs, rule_id='C10.R12')
@@ -582,6 +621,10 @@ def run(ctx):
 
 
 MUTANTS = [
+    dict(name='rsa-pkcs-encrypt-refuses-longest-message', rule='C10.R15', file='src/lib/crypto/OSSLRSA.cpp', after='bool OSSLRSA::encrypt(',
+         old='\t\tif (data.size() > (size_t) (RSA_size(rsa) - 11))', new='\t\tif (data.size() >= (size_t) (RSA_size(rsa) - 11))'),
+    dict(name='rsa-pkcs-sign-refuses-longest-message', rule='C10.R15', file='src/lib/crypto/OSSLRSA.cpp', after='bool OSSLRSA::sign(',
+         old='\t\tif (dataToSign.size() > allowedLen)\n\t\t{\n\t\t\tERROR_MSG("Data to sign exceeds maximum for PKCS #1 signature");', new='\t\tif (dataToSign.size() >= allowedLen)\n\t\t{\n\t\t\tERROR_MSG("Data to sign exceeds maximum for PKCS #1 signature");'),
     dict(name='ecdh-secret-measured-by-the-order', rule='C10.R10', file='src/lib/crypto/OSSLECDH.cpp', after='bool OSSLECDH::deriveKey(',
          old='\tint size = (EC_GROUP_get_degree(EC_KEY_get0_group(priv)) + 7) / 8;', new='\tint size = ((OSSLECPublicKey *)publicKey)->getOrderLength();'),
     dict(name='botan-ecdh-secret-measured-by-the-order', rule='C10.R10', config='botan-file', file='src/lib/crypto/BotanECDH.cpp', after='bool BotanECDH::deriveKey(',
